@@ -79,11 +79,13 @@ static Ev shoot_into(decay0_generator & g, bxdecay0::event & ev, uint64_t phase,
 }
 
 // an event object whose particle vector has capacity exactly c and holds c stale particles
-static bxdecay0::event prefilled(int c)
+// flavour: bit 0 = carries a (stale) generator label, bit 1 = carries a (stale) event time; an event filled by hand with
+// add_particle() only has neither
+static bxdecay0::event prefilled(int c, int flavour = 3)
 {
   bxdecay0::event tmp;
-  tmp.set_generator("stale");
-  tmp.set_time(12.5);
+  if (flavour & 1) tmp.set_generator("stale");
+  if (flavour & 2) tmp.set_time(12.5);
   for (int k = 0; k < c; k++) {
     bxdecay0::particle p;
     p.set_code(bxdecay0::GAMMA);
@@ -144,7 +146,7 @@ struct Ctx {
     switch (op) {
     case 0: { bxdecay0::event ev; shoot_into(*A, ev, ph); break; }
     case 1: shoot_into(*A, E, ph); break;
-    case 2: case 3: case 4: case 5: case 6: { bxdecay0::event ev = prefilled(CAPS[op - 2]); shoot_into(*A, ev, ph); break; }
+    case 2: case 3: case 4: case 5: case 6: { bxdecay0::event ev = prefilled(CAPS[op - 2], pos % 4); shoot_into(*A, ev, ph); break; }
     case 7: A->reset(); configure(*A, cfg); init(*A); break;
     case 8: {
       decay0_generator B;
@@ -338,12 +340,15 @@ static std::string run_config(const Config & c_in, int depth, long nlong)
       probes++;
       if (!same_ev(e, canon[0])) V("probe-reused", hist, "probe shot into the reused event object differs from the canonical history's");
     }
-    for (int k = 0; k < 5; k++) {
-      bxdecay0::event ev = prefilled(CAPS[k]);
-      Ev e = shoot_into(*X.A, ev, PROBES[0]);
-      probes++;
-      if (!same_ev(e, canon[0])) V("probe-prefilled", hist, "probe shot into a pre-filled event of capacity " + std::to_string(CAPS[k]) + " differs from the canonical history's");
-    }
+    for (int k = 0; k < 5; k++)
+      for (int fl = 0; fl < 4; fl++) {
+        bxdecay0::event ev = prefilled(CAPS[k], fl);
+        Ev e = shoot_into(*X.A, ev, PROBES[0]);
+        probes++;
+        if (!same_ev(e, canon[0]))
+          V("probe-prefilled", hist, "probe shot into a pre-filled event of capacity " + std::to_string(CAPS[k]) + (fl & 1 ? " with" : " without") + " a stale label," + (fl & 2 ? " with" : " without")
+                                         + " a stale event time, differs from the canonical history's");
+      }
   };
   // predecessor-first histories: state that is set once per process (function-local statics, lazily built tables)
   // is frozen by whichever configuration runs first, and in every history below that is this configuration itself
@@ -497,7 +502,7 @@ static std::string run_config(const Config & c_in, int depth, long nlong)
         nl++;
       }
       probe_all(X, "initialise ; " + std::to_string(nlong) + " shots (default streams)");
-      if ((long)X.A->get_event_count() != nlong + 9 + (long)steer.size()) V("count", "long", "event counter after the long history is " + std::to_string(X.A->get_event_count()));
+      if ((long)X.A->get_event_count() != nlong + 24 + (long)steer.size()) V("count", "long", "event counter after the long history is " + std::to_string(X.A->get_event_count()));
     } catch (std::exception & e) {
       V("exception", "long history", std::string("unexpected exception: ") + e.what());
     }
